@@ -14,8 +14,6 @@ NA = {
            'optimiser) behind the broken equinox import; needs FP + transcendentals, no SMT encoding within reach',
     'C19': 'vectorized_base/eagle_strategy optimisers are JAX/XLA programs (jit, lax.scan, PRNG keys) over eqx.Module; '
            'XLA computations are unreachable for a Python-level symbolic executor (DESIGN 5)',
-    'C20': 'benchmark experimenters are float numpy array programs (BBOB rotations, np.roll, noise RNG); relational '
-           'claims are float-array identities behind numpy, the aliasing claims have no symbolic content (DESIGN 5)',
 }
 ALL = ['C%02d' % i for i in range(1, 21)]
 
